@@ -98,7 +98,9 @@ def tiny_curves(pmin, pmax, shape, want_h=1, limit=4, offset=0):
     else:
       a_list = [a for a in range(1, p) if a != p - 3][:3]
     for a in a_list:
-      for b in range(1, p):
+      # the group order depends only on the isomorphism class (6 classes for a = 0), so a few
+      # values of b per (p, a) are enough; move on to the next prime otherwise
+      for b in range(1, min(p, 30 if shape != 'a0' else 14)):
         if (4 * a**3 + 27 * b * b) % p == 0:
           continue
         c = Curve(p, a, b)
